@@ -162,10 +162,96 @@ def run(res):
             else:
                 if [x.rstrip(b"\x00") for x in out_sei] != [x.rstrip(b"\x00") for x in in_sei]:
                     res.violation("%s without the option changed a prefix SEI NAL" % cmd, {"cmd": cmd, "opts": opts, "stream_hex": data.hex()})
+    # ---- mux and inject-rpu with --drop-hdr10plus: generated SEI NALs in the base layer, before the first slice,
+    # directly after the AUD, or as first NAL of the frame (base layer without AUDs); against Mux.v / Order.v with
+    # the drop option and the independent SEI walker
+    from . import c06 as C06
+    from .. import rpucases as RC
+    nmux = ninj = 0
+    trees = RC.valid_trees(res.seed, 40, "c18", profile=8)
+    okl = C.dvh().run(["parseclass rpu " + (RC.SC4 + raw).hex() for t, raw, m_ in trees])
+    pool8 = [raw.rstrip(b"\x00") for (t, raw, m_), ok in zip(trees, okl) if ok == "ok" and raw[:3] == bytes([0x19, 8, 9])]
+    for k in range(24 if res.tier == "quick" else 300):
+        n = r.choice([1, 2, 3, 5, 8])
+        bl_frames, el_frames = C06.gen_pair(r, n, n)
+        placement = r.choice(["before-slice", "first-nal", "first-nal", "after-aud"])
+        if placement == "first-nal":
+            bl_frames = [[x for x in f if x.type != 35] for f in bl_frames]
+        for f in bl_frames:
+            if r.random() < 0.8:
+                msgs = gen_sei(r, r.random() < 0.8)
+                sn = S.SNal(H.sei_nal(msgs))
+                if placement == "first-nal":
+                    pos = 0
+                elif placement == "after-aud":
+                    pos = 1 if f and f[0].type == 35 else 0
+                else:
+                    pos = next((i for i, x in enumerate(f) if x.type <= 21), len(f))
+                f.insert(pos, sn)
+                nsei += 1
+        bl, el = S.flatten(bl_frames), S.flatten(el_frames)
+        in_hdr = sum(1 for x in bl if x.type == 39 and any(is_hdr10plus(mm) for mm in walk_sei(x.data)))
+        for drop in (1, 0):
+            if r.random() < 0.6:
+                # ---------------- mux
+                o = {"noaud": int(r.random() < 0.4), "eosfirst": int(r.random() < 0.3), "discard": int(r.random() < 0.3), "annexb": 0, "mode": None}
+                bld = S.stream_bytes(r, bl, sc=r.choice(["four", "mixed"]), tz_prob=0)
+                eld = S.stream_bytes(r, el, sc="four", tz_prob=0)
+                blp, elp, outp = w.write("BL.hevc", bld), w.write("EL.hevc", eld), w.path("mux.hevc")
+                if os.path.exists(outp):
+                    os.remove(outp)
+                ec, txt = cli.run((["--drop-hdr10plus"] if drop else []) + C06.mux_args(o, blp, elp, outp), w.dir, chunk_size=r.choice([None, 1000, 5000]))
+                nrun += 1
+                nmux += 1
+                rp = {"cmd": "mux", "opts": o, "drop": drop, "placement": placement, "bl_hex": bld.hex(), "el_hex": eld.hex()}
+                ostr = C06.opt_string(o).replace("drop=0", "drop=%d" % drop)
+                m1 = C.model().run(["mux %s %s %s" % (ostr, ";".join(x.model() for x in bl), ";".join(x.model() for x in el))])[0]
+                if ec != "0" or not m1.startswith("ok match"):
+                    if (ec == "0") != m1.startswith("ok match"):
+                        res.violation("mux%s exits %s, the model says %s" % (" --drop-hdr10plus" if drop else "", ec, m1[:30]), rp)
+                    continue
+                outn = [x.rstrip(b"\x00") for x in R.split_annexb(w.read("mux.hevc") or b"")]
+                exp = [C.unhexs(x.split(":")[1]).rstrip(b"\x00") for x in m1.split(" ")[2].split(",")] if m1.split(" ")[2] != "-" else []
+                if outn != exp:
+                    kk = next((i for i, (a, b) in enumerate(zip(outn, exp)) if a != b), min(len(outn), len(exp)))
+                    res.violation("mux%s: output differs from the model at NAL %d (%d written, %d expected; SEI placement %s)" % (" --drop-hdr10plus" if drop else "", kk, len(outn), len(exp), placement), rp)
+                    continue
+            else:
+                # ---------------- inject-rpu
+                src = [x for x in bl if x.type != 62] if r.random() < 0.5 else bl
+                sdata = S.stream_bytes(r, src, sc="four", tz_prob=0)
+                rpus = [r.choice(pool8) for _ in range(n)]
+                rpuf = w.write("new.bin", b"".join(b"\x00\x00\x00\x01" + R.escape(x) for x in rpus))
+                inp2, outh = w.write("bl.hevc", sdata), w.path("inj.hevc")
+                if os.path.exists(outh):
+                    os.remove(outh)
+                noaud = int(r.random() < 0.4)
+                ec, txt = cli.run((["--drop-hdr10plus"] if drop else []) + ["inject-rpu", "-i", inp2, "--rpu-in", rpuf, "-o", outh] + (["--no-add-aud"] if noaud else []), w.dir, chunk_size=r.choice([None, 10000, 20000]))
+                nrun += 1
+                ninj += 1
+                rp = {"cmd": "inject-rpu", "no_add_aud": noaud, "drop": drop, "placement": placement, "stream_hex": sdata.hex(), "rpus": [x.hex() for x in rpus]}
+                m1 = C.model().run(["inject noaud=%d,annexb=0,drop=%d %s %s" % (noaud, drop, ";".join(x.model() for x in src), ",".join((b"\x7c\x01" + R.escape(x)).hex() for x in rpus))])[0]
+                if ec != "0" or not m1.startswith("ok"):
+                    if (ec == "0") != m1.startswith("ok"):
+                        res.violation("inject-rpu%s exits %s, the model says %s" % (" --drop-hdr10plus" if drop else "", ec, m1[:30]), rp)
+                    continue
+                outn = [x.rstrip(b"\x00") for x in R.split_annexb(w.read("inj.hevc") or b"")]
+                exp = [C.unhexs(x.split(":")[1]).rstrip(b"\x00") for x in m1[3:].split(",")] if m1 != "ok -" else []
+                if outn != exp:
+                    kk = next((i for i, (a, b) in enumerate(zip(outn, exp)) if a != b), min(len(outn), len(exp)))
+                    res.violation("inject-rpu%s: output differs from the model at NAL %d (%d written, %d expected; SEI placement %s)" % (" --drop-hdr10plus" if drop else "", kk, len(outn), len(exp), placement), rp)
+                    continue
+            # direct oracle on the output: no HDR10+ message left with the option, all of them kept without it
+            left = sum(1 for x in outn if (x[0] >> 1) & 0x3F == 39 and any(is_hdr10plus(mm) for mm in walk_sei(x)))
+            if drop and left:
+                res.violation("%s --drop-hdr10plus: %d SEI NAL(s) of the output still hold an HDR10+ message (SEI placement %s)" % (rp["cmd"], left, placement), rp)
+            if not drop and left != in_hdr:
+                res.violation("%s without the option: %d of %d HDR10+ SEI NALs left" % (rp["cmd"], left, in_hdr), rp)
     res.coverage.update({
+        "mux_runs": nmux, "inject_runs": ninj,
         "evaluations": len(nl) + 2 * nrun,
         "distinct_nontrivial": len(set(nl)),
-        "rule": "prefix SEI NALs with 1..4 messages (assorted payload types, sizes incl. 254/255/256/300/600 with FF extension bytes, payloads holding 00 00 0x, T.35 messages of another provider, wrong application version, truncated header; HDR10+ first / middle / last / alone; seam cases: no emulation prevention byte in the source NAL but the cut brings 00 00 or 00 of the message before against a first byte <= 3 of the message after), checked at NAL level against an independent SEI walker and inside generated streams through convert / demux / remove with and without --drop-hdr10plus (outputs compared with the Coq routing model and walked independently); distinct SEI NALs counted",
+        "rule": "prefix SEI NALs with 1..4 messages (assorted payload types, sizes incl. 254/255/256/300/600 with FF extension bytes, payloads holding 00 00 0x, T.35 messages of another provider, wrong application version, truncated header; HDR10+ first / middle / last / alone; seam cases: no emulation prevention byte in the source NAL but the cut brings 00 00 or 00 of the message before against a first byte <= 3 of the message after), checked at NAL level against an independent SEI walker and inside generated streams through convert / demux / remove, and through mux and inject-rpu (SEI before the first slice, after the AUD, or as first NAL of a frame in a base layer without AUDs; --no-add-aud / --discard / --eos-before-el) against the mux and inject models with the drop option with and without --drop-hdr10plus (outputs compared with the Coq routing model and walked independently); distinct SEI NALs counted",
         "sei_nals_in_streams": nsei, "cli_runs": nrun,
         "samples": [nl[0][:120], nl[1][:120]],
     })
